@@ -1227,6 +1227,34 @@ impl Check for C14 {
         if r.chance(1, 4) {
             s.profile = "C14-full".into();
         }
+        // run-style histories with value breakpoints on registers / memory words that may be uninitialised
+        // (a breakpoint is evaluated on the raw data in both modes)
+        if r.chance(1, 3) {
+            let total: u32 = s.ops.iter().map(|o| if let Op::Step(k) = o { *k } else { 0 }).sum::<u32>().min(s.max_ticks);
+            let mut ops = vec![];
+            for _ in 0..1 + r.below(3) {
+                let c = match r.below(5) {
+                    0 => Cmp::Always,
+                    1 => Cmp::Ne(0),
+                    2 => Cmp::Ge(0x8000),
+                    3 => Cmp::Lt(0x8000),
+                    _ => Cmp::Ne(r.u16()),
+                };
+                ops.push(Op::BpAdd(if r.bool() { BpS::Reg(r.below(8) as u8, c) } else { BpS::Mem(*r.pick(&[0x3000u16, 0x3010, 0x4000, 0x7000, 0xF000, 0x0000]) + r.below(0x20) as u16, c) }));
+            }
+            let mut left = total;
+            while left > 0 {
+                let k = (1 + r.below(30) as u32).min(left);
+                left -= k;
+                ops.push(match r.below(5) {
+                    0 => Op::Step(k),
+                    1 => Op::StepOver,
+                    2 => Op::Run,
+                    _ => Op::RunLimit(k as u64),
+                });
+            }
+            s.ops = ops;
+        }
         // jumps into OS memory / the I/O page need the privilege checks off to get past the ACV
         if r.chance(1, 3) {
             s.flags.ignore_privilege = true;
